@@ -191,7 +191,7 @@ RDecodeFrom(R, s, msgs, ends) ==
   LET x == RDecode(R, s) IN
   IF x.st = "ok" THEN RDecodeFrom(x.R, s, Append(msgs, x.v), Append(ends, x.R.off))
   ELSE [msgs |-> msgs, ends |-> ends, st |-> x.st, reads |-> x.R.reads, br |-> x.R.br,
-        allocs |-> x.R.allocs, err |-> x.R.err]
+        allocs |-> x.R.allocs, err |-> x.R.err, R |-> x.R]
 
 RDecodeAll(s, chunks, cap) == RDecodeFrom(NewReader(cap, chunks), s, <<>>, <<>>)
 
